@@ -524,6 +524,33 @@ def postMap (da : Bool) (ps : Path) (params : List (String × String × Ty)) (ou
     let rs := postMap da ps params outs xs r.2
     ((k, r.1) :: rs.1, rs.2)
 
+/-- `Fork.postProcess`, typed-map branch, AS REPAIRED (F24; regenerated as
+`Gen.postProcessMappedKeyCheck`): a fork key that is not a legal file name
+(`IsLegalUnixFilename`) is refused — an error naming the key is reported, the
+fork's record entry is kept as it is and nothing of it is moved; every other
+fork is processed as before, in `outs/<key>` (one component: for a legal name
+`path.Join` cleans nothing, `joinKey_legal`).  `postMap` above is the branch
+BEFORE the repair (every key through `path.Join`); it is kept for the negative
+witnesses. -/
+def postMapChecked (da : Bool) (ps : Path) (params : List (String × String × Ty)) (outs : Path) :
+    List (String × J) → FS → List (String × J) × FS
+  | [], fs => ([], fs)
+  | (k, x) :: xs, fs =>
+    if legalName k then
+      let r := processStructOuts da ps params x (outs ++ [k]) fs
+      let rs := postMapChecked da ps params outs xs r.2
+      ((k, r.1) :: rs.1, rs.2)
+    else
+      let rs := postMapChecked da ps params outs xs fs
+      ((k, x) :: rs.1, rs.2)
+
+/-- the fork keys for which `postMapChecked` reports an error -/
+def refusedKeys (kvs : List (String × J)) : List String :=
+  (kvs.map Prod.fst).filter (fun k => !legalName k)
+
+/-- the forks `postMapChecked` processes -/
+def legalForks (kvs : List (String × J)) : List (String × J) := kvs.filter (fun kv => legalName kv.1)
+
 /-! ## Rewriting the `_outs` record under faults
 
 `Fork.postProcess` ends with one write of the record file.  A crash (kill -9)
